@@ -1,6 +1,7 @@
 package main
 
 import (
+	"go/token"
 	"go/types"
 	"sort"
 	"strings"
@@ -50,6 +51,8 @@ type ModAnalysis struct {
 	impls  map[string][]*ssa.Function // "IfaceName.Method" cache
 	e      *Enc // for name mangling only
 	localFn map[*ssa.Alloc]*ssa.Function
+	summary bool // computing function summaries (as opposed to loop mod-sets)
+	why     map[*ssa.Function]map[string]bool
 }
 
 func structFam(e *Enc, st types.Type, idx int) string {
@@ -82,6 +85,8 @@ func newModAnalysis(w *World, cs *Contracts) *ModAnalysis {
 		ma.scanLocalFns(f)
 	}
 	// fixpoint
+	ma.summary = true
+	defer func() { ma.summary = false }()
 	for iter := 0; iter < 50; iter++ {
 		changed := false
 		for _, f := range fns {
@@ -135,6 +140,15 @@ func (ma *ModAnalysis) addrFam(addr ssa.Value, ms *ModSet) bool {
 	before := len(ms.Fams)
 	switch a := addr.(type) {
 	case *ssa.FieldAddr:
+		if al, ok := a.X.(*ssa.Alloc); ok && ma.summary && al.Heap {
+			// initialising a freshly allocated object is not a write to pre-existing state
+			return false
+		}
+		if fa, ok := a.X.(*ssa.FieldAddr); ok && ma.summary {
+			if al, ok := fa.X.(*ssa.Alloc); ok && al.Heap {
+				return false
+			}
+		}
 		st := a.X.Type().Underlying().(*types.Pointer).Elem()
 		ft := st.Underlying().(*types.Struct).Field(a.Field).Type()
 		if isObjStruct(ft) {
@@ -206,6 +220,11 @@ func (ma *ModAnalysis) instrMods(f *ssa.Function, ins ssa.Instruction, ms *ModSe
 	switch x := ins.(type) {
 	case *ssa.Store:
 		ch = ma.addrFam(x.Addr, ms)
+	case *ssa.UnOp:
+		if x.Op == token.ARROW && !ms.Fams["G:recv"] {
+			ms.add("G:recv")
+			ch = true
+		}
 	case *ssa.MapUpdate:
 		k := "M:" + typeStr(x.Map.Type().Underlying().(*types.Map))
 		if !ms.Fams[k] {
@@ -282,20 +301,210 @@ func (ma *ModAnalysis) callMods(f *ssa.Function, c *ssa.CallCommon, ms *ModSet) 
 	if callee := c.StaticCallee(); callee != nil {
 		addF("G:calls:" + shortFuncName(callee))
 		ma.calleeMods(callee, ms)
+		if _, inMod := ma.fn[callee]; inMod {
+			ma.funcArgMods(f, c, ms)
+		}
 		return len(ms.Fams) != before || ms.Top != beforeTop
 	}
 	// dynamic call through a func value
 	if fn := ma.resolveDyn(c.Value); fn != nil {
 		addF("G:calls:" + shortFuncName(fn))
 		ma.calleeMods(fn, ms)
+		ma.funcArgMods(f, c, ms)
+		return len(ms.Fams) != before || ms.Top != beforeTop
+	}
+	if fns := ma.returnedClosures(c.Value); len(fns) > 0 {
+		for _, fn := range fns {
+			ma.calleeMods(fn, ms)
+		}
+		ma.funcArgMods(f, c, ms)
 		return len(ms.Fams) != before || ms.Top != beforeTop
 	}
 	addF("G:calls:dyn:" + dynName(c.Value))
-	if ma.dynPure(f, c.Value) {
+	if target := ma.cs.DynBind[dynName(c.Value)]; target != "" {
+		if fn := ma.w.Funcs[target]; fn != nil {
+			ma.calleeMods(fn, ms)
+			return len(ms.Fams) != before || ms.Top != beforeTop
+		}
+	}
+	if ma.dynPure(f, c.Value) || ma.isFuncParam(f, c.Value) {
+		// calls through a function-typed parameter are accounted for at the call sites of f,
+		// which add the effects of the function values they pass (funcArgMods)
 		return len(ms.Fams) != before
 	}
+	ma.noteTop(f, "dynamic call of "+dynName(c.Value))
 	ms.Top = true
 	return ms.Top != beforeTop
+}
+
+func (ma *ModAnalysis) noteTop(f *ssa.Function, why string) {
+	if ma.why == nil {
+		ma.why = map[*ssa.Function]map[string]bool{}
+	}
+	if ma.why[f] == nil {
+		ma.why[f] = map[string]bool{}
+	}
+	ma.why[f][why] = true
+}
+
+// isFuncParam: v is (a load of the local copy of) a parameter of f.
+func (ma *ModAnalysis) isFuncParam(f *ssa.Function, v ssa.Value) bool {
+	switch x := v.(type) {
+	case *ssa.Parameter:
+		return true
+	case *ssa.UnOp:
+		if a, ok := x.X.(*ssa.Alloc); ok {
+			// the alloc is the local copy of a parameter: its only stores store a Parameter
+			refs := a.Referrers()
+			if refs == nil {
+				return false
+			}
+			n := 0
+			for _, r := range *refs {
+				if st, ok := r.(*ssa.Store); ok && st.Addr == ssa.Value(a) {
+					if _, isP := st.Val.(*ssa.Parameter); !isP {
+						return false
+					}
+					n++
+				}
+			}
+			return n == 1
+		}
+	}
+	return false
+}
+
+// returnedClosures: v is the result of calling an in-module function that returns closures
+// (iterator constructors such as rpcs, split, All): the closures it may return.
+func (ma *ModAnalysis) returnedClosures(v ssa.Value) []*ssa.Function {
+	var call *ssa.Call
+	v = unwrapFn(v)
+	switch x := v.(type) {
+	case *ssa.Call:
+		call = x
+	case *ssa.UnOp:
+		if a, ok := x.X.(*ssa.Alloc); ok {
+			// local holding the result of a single call
+			refs := a.Referrers()
+			if refs != nil {
+				var stored []ssa.Value
+				for _, r := range *refs {
+					if st, ok := r.(*ssa.Store); ok && st.Addr == ssa.Value(a) {
+						stored = append(stored, st.Val)
+					}
+				}
+				if len(stored) == 1 {
+					if cc, ok := stored[0].(*ssa.Call); ok {
+						call = cc
+					}
+				}
+			}
+		}
+	}
+	if call == nil {
+		return nil
+	}
+	callee := call.Call.StaticCallee()
+	if callee == nil || callee.Blocks == nil {
+		return nil
+	}
+	if _, known := ma.fn[callee]; !known {
+		return nil
+	}
+	var out []*ssa.Function
+	for _, b := range callee.Blocks {
+		for _, ins := range b.Instrs {
+			ret, ok := ins.(*ssa.Return)
+			if !ok {
+				continue
+			}
+			for _, rv := range ret.Results {
+				switch y := unwrapFn(rv).(type) {
+				case *ssa.MakeClosure:
+					out = append(out, y.Fn.(*ssa.Function))
+				case *ssa.Function:
+					out = append(out, y)
+				case *ssa.UnOp:
+					// return of the (nameless) result local: look at what was stored into it
+					if a, ok := y.X.(*ssa.Alloc); ok {
+						if refs := a.Referrers(); refs != nil {
+							for _, r := range *refs {
+								if st, ok := r.(*ssa.Store); ok && st.Addr == ssa.Value(a) {
+									if mc, ok := unwrapFn(st.Val).(*ssa.MakeClosure); ok {
+										out = append(out, mc.Fn.(*ssa.Function))
+									}
+								}
+							}
+						}
+					}
+				}
+			}
+		}
+	}
+	return out
+}
+
+// funcArgMods: function values passed as arguments may be called by the callee.
+func (ma *ModAnalysis) funcArgMods(f *ssa.Function, c *ssa.CallCommon, ms *ModSet) {
+	for _, a := range c.Args {
+		if _, ok := a.Type().Underlying().(*types.Signature); !ok {
+			continue
+		}
+		if cst, ok := a.(*ssa.Const); ok && cst.Value == nil {
+			continue
+		}
+		if fn := ma.resolveDyn(a); fn != nil {
+			ma.calleeMods(fn, ms)
+			continue
+		}
+		if ma.dynPure(f, a) || ma.isFuncParam(f, a) {
+			continue
+		}
+		if ma.boundMethod(a, ms) {
+			continue
+		}
+		ma.noteTop(f, "function value argument "+dynName(a))
+		ms.Top = true
+	}
+}
+
+// boundMethod: a method value x.M of an in-module type (closure over a synthetic bound wrapper).
+func (ma *ModAnalysis) boundMethod(v ssa.Value, ms *ModSet) bool {
+	mc, ok := v.(*ssa.MakeClosure)
+	if !ok {
+		if u, ok2 := v.(*ssa.UnOp); ok2 {
+			if a, ok3 := u.X.(*ssa.Alloc); ok3 {
+				if refs := a.Referrers(); refs != nil {
+					for _, r := range *refs {
+						if st, ok := r.(*ssa.Store); ok && st.Addr == ssa.Value(a) {
+							if m, ok := st.Val.(*ssa.MakeClosure); ok {
+								mc = m
+							}
+						}
+					}
+				}
+			}
+		}
+		if mc == nil {
+			return false
+		}
+	}
+	fn, _ := mc.Fn.(*ssa.Function)
+	if fn == nil || fn.Synthetic == "" {
+		return false
+	}
+	// bound method wrapper: its body calls the real method
+	for _, b := range fn.Blocks {
+		for _, ins := range b.Instrs {
+			if call, ok := ins.(*ssa.Call); ok {
+				if callee := call.Call.StaticCallee(); callee != nil {
+					ma.calleeMods(callee, ms)
+					return true
+				}
+			}
+		}
+	}
+	return false
 }
 
 func (ma *ModAnalysis) calleeMods(callee *ssa.Function, ms *ModSet) {
@@ -321,7 +530,7 @@ func (ma *ModAnalysis) calleeMods(callee *ssa.Function, ms *ModSet) {
 		return
 	}
 	fc := ma.cs.Funcs[shortFuncName(callee)]
-	if fc != nil && fc.HasMod {
+	if fc != nil && fc.HasMod && !fc.NoFrame {
 		// the callee is verified against (or trusted with) its modifies clause: callers rely on it
 		if len(fc.Modifies) == 0 {
 			return
@@ -352,7 +561,19 @@ func (ma *ModAnalysis) contractGhostMods(fc *FuncContract, ms *ModSet) {
 	}
 }
 
+func unwrapFn(v ssa.Value) ssa.Value {
+	for {
+		switch x := v.(type) {
+		case *ssa.ChangeType:
+			v = x.X
+		default:
+			return v
+		}
+	}
+}
+
 func (ma *ModAnalysis) resolveDyn(v ssa.Value) *ssa.Function {
+	v = unwrapFn(v)
 	switch x := v.(type) {
 	case *ssa.MakeClosure:
 		return x.Fn.(*ssa.Function)
@@ -362,8 +583,48 @@ func (ma *ModAnalysis) resolveDyn(v ssa.Value) *ssa.Function {
 		if a, ok := x.X.(*ssa.Alloc); ok {
 			return ma.localFn[a]
 		}
+		if fv, ok := x.X.(*ssa.FreeVar); ok {
+			return ma.resolveFreeVar(fv, 0)
+		}
 	}
 	return nil
+}
+
+// resolveFreeVar: a captured variable that holds exactly one closure in the enclosing function.
+func (ma *ModAnalysis) resolveFreeVar(fv *ssa.FreeVar, depth int) *ssa.Function {
+	if depth > 4 {
+		return nil
+	}
+	f := fv.Parent()
+	parent := f.Parent()
+	if parent == nil {
+		return nil
+	}
+	idx := -1
+	for i, x := range f.FreeVars {
+		if x == fv {
+			idx = i
+		}
+	}
+	if idx < 0 {
+		return nil
+	}
+	var res *ssa.Function
+	for _, b := range parent.Blocks {
+		for _, ins := range b.Instrs {
+			mc, ok := ins.(*ssa.MakeClosure)
+			if !ok || mc.Fn != f || idx >= len(mc.Bindings) {
+				continue
+			}
+			switch bv := mc.Bindings[idx].(type) {
+			case *ssa.Alloc:
+				res = ma.localFn[bv]
+			case *ssa.FreeVar:
+				res = ma.resolveFreeVar(bv, depth+1)
+			}
+		}
+	}
+	return res
 }
 
 // dynPure: the called func value is declared pure/external by the enclosing function's contract
